@@ -763,8 +763,46 @@ func TestC20(t *testing.T) {
 					ext++
 				}
 			}
+			refused := 0
+			if !heavy && c.Goroutines <= 1000 && rapid.IntRange(0, 2).Draw(rt, "withrefused") == 0 {
+				// some goroutines' messages are refused by the encoder half-way (a message whose extension was left out
+				// under an application id that has none; the same inside its frame): an error path running beside
+				// the others' successful calls
+				for k := rapid.IntRange(1, 3).Draw(rt, "nrefused"); k > 0; k-- {
+					tb := TableList[rapid.IntRange(0, len(TableList)-1).Draw(rt, "rtable")]
+					holder := holderOf(tb)
+					hts := Types[holder]
+					if hts.IsFrame() {
+						continue
+					}
+					g := &gen{rt: rt, feat: &Features{}, mult: 1}
+					key := g.unregisteredKey("rkey", tb, &hts.Fields[hts.FieldIndex(hts.Fields[hts.DynIndex()].Disc)])
+					hv := holderWithKeyRT(rt, tb, key, false, "")
+					item := hv
+					if rapid.Bool().Draw(rt, "inframe") {
+						// the frame of the module with this message as its body
+						fr := frameOf(tb.Module)
+						fts := Types[fr]
+						ftb := TableOf(fts, &fts.Fields[fts.DynIndex()])
+						for _, fk := range ftb.Order {
+							if ftb.TypeFor(fk) == holder {
+								fv, _ := GenValue(rt, fr, GenOpts{Mode: Canonical, MaxList: 20, ForceKey: fk})
+								fv.F[fts.DynIndex()].O = hv
+								item = fv
+								break
+							}
+						}
+					}
+					c.Items = append(c.Items, item)
+					n++
+					refused++
+				}
+			}
 			nt := len(mods) >= 3 && ck >= 1 && ext >= 1
 			cls := []string{fmt.Sprintf("goroutines:%d", c.Goroutines), fmt.Sprintf("gomaxprocs:%d", c.Procs)}
+			if refused > 0 {
+				cls = append(cls, "batch-with-messages-the-encoder-refuses-half-way")
+			}
 			if nt {
 				cls = append(cls, "mixed>=3-protocols+checksummed-frame+table-lookup")
 			}
